@@ -24,7 +24,7 @@ pub mod we {
         ecs_archetype!(ArchOne, EA);
         #[archetype_id(2)]
         ecs_archetype!(ArchTwo, EA, EB);
-        #[archetype_id(200)]
+        #[archetype_id(1)]
         ecs_archetype!(ArchThree, EC);
     }
 
